@@ -232,12 +232,30 @@ class Typestate:
             if len(d['chains']) < 6:
                 d['chains'].append((state, ' -> '.join(chain)))
 
-    def _analyse(self, fi, s0, chain):
+    def flow_from(self, fi, node, states):
+        """outcomes of continuing fi *after* CFG node `node` (normal successors) in `states`"""
+        out = set()
+        for s in states:
+            out |= self._analyse(fi, s, (fi.qual,), start=node)
+        return out
+
+    def _analyse(self, fi, s0, chain, start=None):
         S = self.S
         g = self.esc.add_exception_edges(fi)
-        IN = {g.entry.id: {s0}}
-        work = [g.entry]
         outcomes = set()
+        if start is None:
+            IN = {g.entry.id: {s0}}
+            work = [g.entry]
+        else:
+            IN = {}
+            work = []
+            for lab, m in start.succ:
+                if not isinstance(lab, tuple):
+                    if m.kind == 'exit':
+                        outcomes.add((s0, 'ret'))
+                        continue
+                    IN.setdefault(m.id, set()).add(s0)
+                    work.append(m)
         guard = 0
         while work:
             guard += 1
@@ -333,7 +351,8 @@ class Typestate:
                 if not st <= old:
                     IN[m.id] = old | st
                     work.append(m)
-        self.node_in[(fi.qual, s0)] = IN
+        if start is None:
+            self.node_in[(fi.qual, s0)] = IN
         return outcomes
 
     # ------------------------------------------------------------------ queries
